@@ -5,6 +5,7 @@
 set -u
 cd /verif
 rm -f coq/Makefile coq/Makefile.conf coq/.Makefile.d
+rm -rf build/t-*
 find coq -name '*.vo' -o -name '*.vok' -o -name '*.vos' -o -name '*.glob' -o -name '.*.aux' | xargs -r rm -f
 python3 - <<'PY'
 import sys
